@@ -41,7 +41,7 @@ func init() {
 	registerRule(&RuleDef{ID: "W4", Min: 5, Doc: "notifications are delivered synchronously and handled in the client's read loop", Run: ruleW4Standalone})
 	// --- E6 exhaustiveness and friends
 	registerRule(&RuleDef{ID: "E6", Min: 120, Doc: "every constant of a group is handled at each sibling site", Run: ruleE6})
-	registerRule(&RuleDef{ID: "T-WIRE", Min: 7, Doc: "boolean mode arguments are wired to the required constant", Run: ruleTWIRE})
+	registerRule(&RuleDef{ID: "T-WIRE", Min: 9, Doc: "boolean mode arguments are wired to the required constant", Run: ruleTWIRE})
 	registerRule(&RuleDef{ID: "T-GUARD", Min: 5, Doc: "must-pass-through guards (Mutable, Go type, assignability)", Run: ruleTGUARD})
 	registerRule(&RuleDef{ID: "T-REFPOS", Min: 6, Doc: "every carrier / position of a reference is inspected", Run: ruleTREFPOS})
 	registerRule(&RuleDef{ID: "Q-PRE", Min: 3, Doc: "index lookups only pre-filter; rows are returned after every condition was evaluated", Run: ruleQPRE})
@@ -214,6 +214,35 @@ func init() {
 	registerRule(&RuleDef{ID: "A3-DISTINCT", Min: 10, Doc: "mutation helpers never return one mutable object as both new value and difference", Run: ruleA3DISTINCT})
 	add("C03", "A3-DISTINCT")
 	add("C10", "A3-DISTINCT")
+	registerRule(&RuleDef{ID: "X7", Min: 5, Doc: "validate then write: no error return after an index/row entry was written", Run: ruleX7})
+	registerRule(&RuleDef{ID: "S-LOOP", Min: 2, Doc: "per-table containers of the monitor filter are created inside the per-table loop", Run: ruleSLOOP})
+	registerRule(&RuleDef{ID: "T-INITREFS", Min: 1, Doc: "existing references are loaded before a row's reference changes are applied", Run: ruleTINITREFS})
+	registerRule(&RuleDef{ID: "K6", Min: 2, Doc: "inside a map only a nested map is refused", Run: ruleK6})
+	registerRule(&RuleDef{ID: "G-CLONE", Min: 2, Doc: "model.Clone/CloneInto never copy by shallow reflective assignment", Run: ruleGCLONE})
+	registerRule(&RuleDef{ID: "V-RECV", Min: 1, Doc: "every received event is dispatched (pass also emits V-WHO)", Run: ruleVRECV})
+	registerRule(&RuleDef{ID: "V-WHO", Min: 4, Doc: "rows are changed only where the matching event is emitted (emitted by V-RECV)", Run: noop})
+	registerRule(&RuleDef{ID: "X8", Min: 1, Doc: "the commit-time index check covers every transaction row", Run: ruleX8})
+	registerRule(&RuleDef{ID: "L-WAIT", Min: 1, Doc: "no WaitGroup.Wait while holding a client lock", Run: ruleLWAIT})
+	registerRule(&RuleDef{ID: "G-ARGS", Min: 1, Doc: "transact handler requires at least one operation", Run: ruleGARGS})
+	registerRule(&RuleDef{ID: "P-NIL-TYPEOBJ", Min: 3, Doc: "ColumnSchema.TypeObj dereferenced only for map/set/enum columns or after a nil test", Run: rulePNILTYPEOBJ})
+	registerRule(&RuleDef{ID: "GEN-ENUM", Min: 2, Doc: "enum alias names only with enum types on", Run: ruleGENENUM})
+	add("C12", "K6")
+	add("C09", "K6")
+	add("C13", "G-CLONE")
+	add("C14", "V-RECV", "V-WHO")
+	add("C06", "X8")
+	add("C17", "X8", "S-PURE")
+	add("C18", "L-WAIT", "A1", "A2")
+	add("C19", "G-ARGS", "P-NIL-TYPEOBJ")
+	add("C20", "GEN-ENUM")
+	add("C01", "L4")
+	add("C18", "T-WIRE")
+	add("C16", "T-WIRE")
+	add("C05", "X7")
+	add("C06", "X7", "L4")
+	add("C07", "S-LOOP", "L5")
+	add("C04", "T-INITREFS")
+	add("C03", "X5")
 	add("C01", "A3-REPAIR", "S-PURE")
 	add("C03", "T-DELROWS")
 	add("C04", "L4", "T-SCAN")
